@@ -32,10 +32,10 @@ x87_probe:
 '''
 
 PRE = diffprog.PRELUDE + ('long sp_probe(void); int x87_probe(void);\n#ifdef __chibicc__\nvoid *alloca(unsigned long);\n#else\n#define alloca __builtin_alloca\n#endif\n'
-                          'struct SS { int a; char b; }; struct SB { long a[5]; double d; }; struct SL { long double l; int i; };\n')
+                          'typedef char *PC; struct SS { int a; char b; }; struct SB { long a[5]; double d; }; struct SL { long double l; int i; };\n')
 
 TYPES = [('char', 'i'), ('unsigned char', 'i'), ('short', 'i'), ('unsigned short', 'i'), ('int', 'i'), ('unsigned', 'i'), ('long', 'i'), ('unsigned long', 'i'), ('_Bool', 'i'),
-         ('float', 'f'), ('double', 'f'), ('long double', 'f'), ('char *', 'p'), ('struct SS', 'a'), ('struct SB', 'a'), ('struct SL', 'a')]
+         ('float', 'f'), ('double', 'f'), ('long double', 'f'), ('PC', 'p'), ('struct SS', 'a'), ('struct SB', 'a'), ('struct SL', 'a')]
 IVALS = ['0', '1', '3', '-1', '127', '255', '65535', '2147483647', '(-2147483647-1)', '4294967295U', '9223372036854775807L', '18446744073709551615UL', '9223372036854775808UL', '0x8000000000000401UL']
 FVALS = ['0.0', '1.5', '-2.25', '1e10', '3.0', '0.1']
 
